@@ -193,6 +193,8 @@ spifconf_free_subsystem(void)
         v = v->next;
         spifconf_free_var(tmp);
     }
+    /* (The list is gone.  Do not leave its head behind for the next init/use cycle.) */
+    spifconf_vars = NULL;
     for (i = 0; i < builtin_idx; i++) {
         FREE(builtins[i].name);
     }
